@@ -187,10 +187,12 @@ fn webpki_chain_ok(leaf: &[u8], ca: &[u8]) -> Option<bool> {
 	let leaf_der = CertificateDer::from(leaf.to_vec());
 	let ee = webpki::EndEntityCert::try_from(&leaf_der).ok()?;
 	let now = UnixTime::since_unix_epoch(std::time::Duration::from_secs(1_750_000_000));
-	Some(
-		ee.verify_for_usage(webpki::ALL_VERIFICATION_ALGS, &[anchor], &[], now, webpki::KeyUsage::server_auth(), None, None)
-			.is_ok(),
-	)
+	match ee.verify_for_usage(webpki::ALL_VERIFICATION_ALGS, &[anchor], &[], now, webpki::KeyUsage::server_auth(), None, None) {
+		Ok(_) => Some(true),
+		// (this webpki verifies with ring: a P-521 signature is not a rejection, it is no answer)
+		Err(e) if format!("{:?}", e).contains("UnsupportedSignatureAlgorithm") => None,
+		Err(_) => Some(false),
+	}
 }
 
 /// issue a leaf from (issuer params, issuer key) and check the chain properties against the
@@ -245,6 +247,24 @@ fn chain_case(s: &mut Suite, what: &str, ca_der: &[u8], issuer_params: Certifica
 	}
 	for (way, leaf) in leaves {
 		chain_checks(s, &format!("{} leaf via {}", line, way), ca_der, tag, oracles, leaf);
+	}
+	// subjects of the other kinds: one that says outright it is no CA, an intermediate, and one
+	// that bears the issuer's own name with another key (the certificates of a key rollover; an
+	// end entity left at the default name) — issuer name and authority key identifier are the
+	// issuer's whatever the subject is (the path validators are not asked: they have rules of
+	// their own for certificates that look self-issued or are CAs at the end of a path)
+	let issuer_name = dn_of_real(&issuer.params().distinguished_name);
+	for (shape, ca, same_name) in [("explicit-no-ca", Ca::ExplicitNo, false), ("intermediate", Ca::Ca(Some(0)), false), ("bears-the-issuer's-name", Ca::No, true), ("intermediate-bearing-the-issuer's-name", Ca::Ca(None), true)] {
+		let mut q = lp.clone();
+		q.ca = ca;
+		if same_name {
+			q.dn = issuer_name.clone();
+		}
+		let Some(rq) = q.real() else { continue };
+		let leaf = std::panic::catch_unwind(std::panic::AssertUnwindSafe(|| rq.signed_by(&*leaf_key, &issuer, ca_key)));
+		let Ok(leaf) = leaf else { continue };
+		s.rep.count(&format!("leaf_shapes:{}", shape));
+		chain_checks(s, &format!("{} leaf of kind {}", line, shape), ca_der, tag, shape == "explicit-no-ca" && oracles, leaf);
 	}
 }
 
@@ -589,13 +609,30 @@ pub fn run(ctx: &mut Ctx, prop: &str) -> Report {
 	}
 	// --- OpenSSL-generated CAs over the name-shape sweep
 	let ec_group = openssl::ec::EcGroup::from_curve_name(openssl::nid::Nid::X9_62_PRIME256V1).unwrap();
-	let ossl_keys: Vec<(PKey<Private>, &str)> = vec![
+	let mut ossl_keys: Vec<(PKey<Private>, &str)> = vec![
 		(PKey::from_ec_key(openssl::ec::EcKey::generate(&ec_group).unwrap()).unwrap(), "p256"),
 		(PKey::generate_ed25519().unwrap(), "ed25519"),
 		(PKey::private_key_from_pkcs8(&s.ctx.rsa_fixture).unwrap(), "rsa"),
 	];
-	for shape in name_shapes() {
+	// the other curves and a larger RSA key, on the first two name shapes (a back end that cannot
+	// load the key is counted, not reported)
+	for (nid, n) in [(openssl::nid::Nid::SECP384R1, "p384"), (openssl::nid::Nid::SECP521R1, "p521")] {
+		if let Ok(g) = openssl::ec::EcGroup::from_curve_name(nid) {
+			if let Ok(k) = openssl::ec::EcKey::generate(&g).and_then(PKey::from_ec_key) {
+				ossl_keys.push((k, n));
+			}
+		}
+	}
+	if let Ok(d) = std::fs::read("/verif/harness/fixtures/rsa3072.pk8") {
+		if let Ok(k) = PKey::private_key_from_pkcs8(&d) {
+			ossl_keys.push((k, "rsa3072"));
+		}
+	}
+	for (shape_index, shape) in name_shapes().into_iter().enumerate() {
 		for (key, kname) in &ossl_keys {
+			if shape_index > 1 && ["p384", "p521", "rsa3072"].contains(kname) {
+				continue;
+			}
 			for with_ski in [true, false] {
 				let Some(ca) = openssl_ca(&shape, key, with_ski, if with_ski { None } else { Some(1) }) else {
 					s.rep.count("openssl_ca_build_failed");
